@@ -490,7 +490,7 @@ def gallina_state(st):
 
 def run(ctx):
     ctx.level = "proof"
-    proved = vlib.prove(ctx, ["Properties_C14.v"], facts=["msg"])
+    proved = vlib.prove(ctx, ["Properties_C14.v"], facts=["msg", "msgtables"])
     ctx.log("proofs:", "ok" if proved else "BROKEN: " + getattr(ctx, "broken_obligation", "?"))
     ctx.cov["rule"] = ("proof: Properties_C14.v over MsgModel with constants, widths, sizeof(addr) and the measured addr_len "
                        "bound regenerated from m_msg.[ch]; correspondence: same case lines through /repo's m_msg.c "
